@@ -3,7 +3,12 @@
 //! Generator: structured items (keys from the pinned naming table, mouse, reports, SGR,
 //! OSC colours, termcap, kitty keyboard/graphics, paste, text) -> bytes through the
 //! independent protocol printer (`ttyout`).  Oracle: exact equality of the decoded event list
-//! with the events the items denote (single buffer; chunking is C03's subject).
+//! with the events the items denote, (1) for the bytes in a single buffer and (2) for the same
+//! bytes delivered under a generated READ SCHEDULE: cut into reads (cuts biased to fall right
+//! after ESC, after an introducer `ESC [`/`ESC O`/`ESC P`/`ESC ]`/`ESC _`, after `ESC ESC`),
+//! with reads that return nothing and reads that fail with WouldBlock / Interrupted and are
+//! retried on the same decoder (io::BufRead contract) in between.  The events a byte stream
+//! denotes do not depend on how the bytes arrive.
 
 use crate::engine::*;
 use crate::refsgr::{RgbForm, SgrParam};
@@ -21,6 +26,222 @@ pub static TABLE: LazyLock<Vec<LegacyKey>> = LazyLock::new(ttyout::legacy_table)
 #[derive(Clone, Debug, Serialize, Deserialize)]
 pub struct Case {
     pub items: Vec<Item>,
+    /// how the bytes are delivered to a second, fresh decoder (None: single buffer only)
+    #[serde(default)]
+    pub reads: Option<Schedule>,
+}
+
+/// where a cut position is moved to (the first such boundary at or after it, wrapping around)
+#[derive(Clone, Copy, Debug, PartialEq, Eq, Serialize, Deserialize)]
+pub enum Snap {
+    Free,
+    /// right after an ESC byte
+    AfterEsc,
+    /// right after the byte that follows an ESC (`ESC [`, `ESC O`, `ESC ]`, `ESC ESC` ...)
+    AfterIntroducer,
+    /// right after `ESC ESC` (falls back to AfterEsc)
+    AfterEscEsc,
+}
+
+/// what the reader answers at a cut before it delivers the next bytes
+#[derive(Clone, Copy, Debug, PartialEq, Eq, Serialize, Deserialize)]
+pub enum Gap {
+    /// `fill_buf` returns an empty slice (nothing has arrived)
+    Empty,
+    /// `fill_buf` fails with ErrorKind::WouldBlock, nothing consumed, the caller retries
+    WouldBlock,
+    /// `fill_buf` fails with ErrorKind::Interrupted, nothing consumed, the caller retries
+    Interrupted,
+}
+
+#[derive(Clone, Debug, Serialize, Deserialize)]
+pub struct Cut {
+    /// position as a fraction of the input length
+    pub at: u16,
+    pub snap: Snap,
+    pub gap: Vec<Gap>,
+}
+
+#[derive(Clone, Debug, Default, Serialize, Deserialize)]
+pub struct Schedule {
+    /// every delivered chunk is followed by a read that returns nothing: the way
+    /// `Terminal::poll` feeds the decoder (one Cursor per read(2), drained until None)
+    pub drain: bool,
+    pub cuts: Vec<Cut>,
+}
+
+const ESC: u8 = 0x1b;
+
+/// fraction that resolves to exactly position `c` of `len` bytes
+fn frac_for(c: usize, len: usize) -> u16 {
+    ((c * 65536).div_ceil(len + 1)).min(65535) as u16
+}
+
+impl Schedule {
+    /// cut positions (ascending, merged) with what happens at each of them
+    fn resolve(&self, bytes: &[u8]) -> Vec<(usize, Vec<Gap>)> {
+        let len = bytes.len();
+        let after_esc: Vec<usize> = (0..len).filter(|&i| bytes[i] == ESC).map(|i| i + 1).collect();
+        let after_intro: Vec<usize> = after_esc.iter().map(|p| p + 1).filter(|p| *p <= len).collect();
+        let after_pair: Vec<usize> = after_esc.iter().copied().filter(|&p| p >= 2 && bytes[p - 2] == ESC).collect();
+        let pick = |list: &[usize], pos: usize| list.iter().copied().find(|p| *p >= pos).or(list.first().copied());
+        let mut out: Vec<(usize, Vec<Gap>)> = Vec::new();
+        for cut in &self.cuts {
+            let pos = (cut.at as usize * (len + 1)) >> 16;
+            let pos = match cut.snap {
+                Snap::Free => None,
+                Snap::AfterEsc => pick(&after_esc, pos),
+                Snap::AfterIntroducer => pick(&after_intro, pos),
+                Snap::AfterEscEsc => pick(&after_pair, pos).or(pick(&after_esc, pos)),
+            }
+            .unwrap_or(pos);
+            out.push((pos, cut.gap.clone()));
+        }
+        out.sort_by_key(|(p, _)| *p);
+        let mut merged: Vec<(usize, Vec<Gap>)> = Vec::new();
+        for (p, g) in out {
+            match merged.last_mut() {
+                Some((q, h)) if *q == p => h.extend(g),
+                _ => merged.push((p, g)),
+            }
+        }
+        merged
+    }
+}
+
+#[derive(Clone, Copy, Debug)]
+enum Step {
+    Data(usize, usize),
+    Empty,
+    Fault(std::io::ErrorKind),
+}
+
+/// the reads of a resolved schedule; `empties` / `faults` = keep those answers (the reduced
+/// schedules tell which ingredient a failure needs)
+fn steps_of(cuts: &[(usize, Vec<Gap>)], len: usize, drain: bool, empties: bool, faults: bool) -> Vec<Step> {
+    let mut steps = Vec::new();
+    let mut prev = 0usize;
+    let mut data = |steps: &mut Vec<Step>, prev: &mut usize, to: usize| {
+        if to > *prev {
+            steps.push(Step::Data(*prev, to));
+            if drain && empties {
+                steps.push(Step::Empty);
+            }
+            *prev = to;
+        }
+    };
+    for (pos, gaps) in cuts {
+        data(&mut steps, &mut prev, *pos);
+        for g in gaps {
+            match g {
+                Gap::Empty if empties => steps.push(Step::Empty),
+                Gap::WouldBlock if faults => steps.push(Step::Fault(std::io::ErrorKind::WouldBlock)),
+                Gap::Interrupted if faults => steps.push(Step::Fault(std::io::ErrorKind::Interrupted)),
+                _ => {}
+            }
+        }
+    }
+    data(&mut steps, &mut prev, len);
+    steps
+}
+
+fn render_steps(bytes: &[u8], steps: &[Step]) -> String {
+    let parts: Vec<String> = steps
+        .iter()
+        .map(|s| match s {
+            Step::Data(a, b) if b - a > 60 => format!("<{} bytes ending in \"{}\">", b - a, String::from_utf8_lossy(&bytes[b - 12..*b]).escape_debug()),
+            Step::Data(a, b) => format!("\"{}\"", String::from_utf8_lossy(&bytes[*a..*b]).escape_debug()),
+            Step::Empty => "<read returns nothing>".to_string(),
+            Step::Fault(k) => format!("<read fails: {k:?}, retried>"),
+        })
+        .collect();
+    format!("[{}]", parts.join(", "))
+}
+
+/// A reader that answers `fill_buf` according to the schedule: unconsumed bytes of the current
+/// chunk first, otherwise the next step; after the last step it is at end of input.
+struct Scripted<'a> {
+    bytes: &'a [u8],
+    steps: &'a [Step],
+    next: usize,
+    cur: (usize, usize),
+    faults: usize,
+}
+
+impl Scripted<'_> {
+    fn exhausted(&self) -> bool {
+        self.next == self.steps.len() && self.cur.0 == self.cur.1
+    }
+}
+
+impl std::io::Read for Scripted<'_> {
+    fn read(&mut self, out: &mut [u8]) -> std::io::Result<usize> {
+        use std::io::BufRead;
+        let data = self.fill_buf()?;
+        let n = data.len().min(out.len());
+        out[..n].copy_from_slice(&data[..n]);
+        self.consume(n);
+        Ok(n)
+    }
+}
+
+impl std::io::BufRead for Scripted<'_> {
+    fn fill_buf(&mut self) -> std::io::Result<&[u8]> {
+        if self.cur.0 == self.cur.1 {
+            match self.steps.get(self.next).copied() {
+                None => {}
+                Some(step) => {
+                    self.next += 1;
+                    match step {
+                        Step::Data(a, b) => self.cur = (a, b),
+                        Step::Empty => {}
+                        Step::Fault(kind) => {
+                            self.faults += 1;
+                            return Err(std::io::Error::new(kind, "scheduled read failure"));
+                        }
+                    }
+                }
+            }
+        }
+        Ok(&self.bytes[self.cur.0..self.cur.1])
+    }
+
+    fn consume(&mut self, amt: usize) {
+        self.cur.0 = (self.cur.0 + amt).min(self.cur.1);
+    }
+}
+
+/// One decoder, one reader; `decode` is called until it returns None with every step of the
+/// schedule taken and every byte consumed (what `decode_into` does with the last chunk; no
+/// further read is added at the end).  An error returned right after the reader failed is the
+/// scheduled failure coming back: the same call is simply made again.
+fn decode_scheduled(bytes: &[u8], steps: &[Step]) -> Result<Vec<TerminalEvent>, Fail> {
+    let mut dec = TTYEventDecoder::new();
+    let mut rd = Scripted { bytes, steps, next: 0, cur: (0, 0), faults: 0 };
+    let mut out = Vec::new();
+    let mut seen_faults = 0usize;
+    // every call either yields an event (at most one per byte), or takes a step, or is the last
+    for _ in 0..2 * bytes.len() + steps.len() + 64 {
+        let r = dec.decode(&mut rd);
+        let injected = rd.faults > seen_faults;
+        seen_faults = rd.faults;
+        match r {
+            Ok(Some(ev)) => out.push(ev),
+            Ok(None) if rd.exhausted() => break,
+            Ok(None) => {}
+            Err(_) if injected => {}
+            Err(e) => {
+                return Err(Fail::new(
+                    "reads/io-error",
+                    format!(
+                        "input delivered as {}: decoder returned error {e:?} although the reader had not failed",
+                        render_steps(bytes, steps)
+                    ),
+                ));
+            }
+        }
+    }
+    Ok(out)
 }
 
 pub fn decode_all(bytes: &[u8]) -> Result<Vec<TerminalEvent>, Fail> {
@@ -54,25 +275,37 @@ fn classify(item: &Item) -> String {
     }
 }
 
-pub fn check_items(items: &[Item]) -> Outcome {
+struct Encoded {
+    bytes: Vec<u8>,
+    /// end offset of every item's encoding
+    ends: Vec<usize>,
+    expected: Vec<(usize, TerminalEvent)>,
+}
+
+fn encode_items(items: &[Item]) -> Encoded {
     let table = &*TABLE;
-    let mut bytes = Vec::new();
-    let mut expected: Vec<(usize, TerminalEvent)> = Vec::new();
+    let mut enc = Encoded { bytes: Vec::new(), ends: Vec::new(), expected: Vec::new() };
     for (idx, item) in items.iter().enumerate() {
-        item.encode(table, &mut bytes);
+        item.encode(table, &mut enc.bytes);
+        enc.ends.push(enc.bytes.len());
         let mut ev = Vec::new();
         item.expected(table, &mut ev);
-        expected.extend(ev.into_iter().map(|e| (idx, e)));
+        enc.expected.extend(ev.into_iter().map(|e| (idx, e)));
     }
-    let got = guard(|| decode_all(&bytes))?;
-    let render = || String::from_utf8_lossy(&bytes).escape_debug().to_string();
-    for (pos, (idx, want)) in expected.iter().enumerate() {
+    enc
+}
+
+/// exact equality of `got` with the events the items denote; `oracle` is the signature prefix,
+/// `how` describes the delivery of the bytes
+fn compare(items: &[Item], enc: &Encoded, got: &[TerminalEvent], oracle: &str, how: &str) -> Result<(), Fail> {
+    let render = || String::from_utf8_lossy(&enc.bytes).escape_debug().to_string();
+    for (pos, (idx, want)) in enc.expected.iter().enumerate() {
         let item = &items[*idx];
         let Some(g) = got.get(pos) else {
             return Err(Fail::new(
-                format!("decode/{}/missing", classify(item)),
+                format!("{oracle}/{}/missing", classify(item)),
                 format!(
-                    "input \"{}\": expected event #{pos} {:?} (from {:?}) but only {} events were decoded: {:?}",
+                    "input \"{}\"{how}: expected event #{pos} {:?} (from {:?}) but only {} events were decoded: {:?}",
                     render(), want, item, got.len(), got
                 ),
             ));
@@ -86,28 +319,94 @@ pub fn check_items(items: &[Item]) -> Outcome {
         };
         if !ok {
             return Err(Fail::new(
-                format!("decode/{}", classify(item)),
+                format!("{oracle}/{}", classify(item)),
                 format!(
-                    "input \"{}\": event #{pos} decoded as {:?}, the bytes denote {:?} (item {:?}); all decoded: {:?}",
+                    "input \"{}\"{how}: event #{pos} decoded as {:?}, the bytes denote {:?} (item {:?}); all decoded: {:?}",
                     render(), g, want, item, got
                 ),
             ));
         }
     }
     ensure!(
-        got.len() == expected.len(),
-        "decode/extra-events",
-        "input \"{}\": {} events expected, decoded {:?}",
+        got.len() == enc.expected.len(),
+        format!("{oracle}/extra-events"),
+        "input \"{}\"{how}: {} events expected, decoded {:?}",
         render(),
-        expected.len(),
+        enc.expected.len(),
         got
     );
+    Ok(())
+}
+
+pub fn check_items(items: &[Item]) -> Outcome {
+    check_case(items, None)
+}
+
+/// the same bytes under the read schedule; a failure is attributed to the ingredient it needs:
+/// the cuts alone, the reads that return nothing, or the failed and retried reads
+fn check_reads(items: &[Item], enc: &Encoded, cuts: &[(usize, Vec<Gap>)], drain: bool) -> Result<(), Fail> {
+    let len = enc.bytes.len();
+    let attempt = |empties: bool, faults: bool, oracle: &str| -> Result<(), Fail> {
+        let steps = steps_of(cuts, len, drain, empties, faults);
+        let got = guard(|| decode_scheduled(&enc.bytes, &steps))?;
+        let how = format!(" delivered as {} (decoded correctly from a single buffer)", render_steps(&enc.bytes, &steps));
+        compare(items, enc, &got, oracle, &how)
+    };
+    let full = attempt(true, true, "reads/retried-read-error-changes-events");
+    if full.is_ok() {
+        return Ok(());
+    }
+    attempt(false, false, "reads/cut-changes-events")?;
+    attempt(true, false, "reads/empty-read-changes-events")?;
+    full
+}
+
+pub fn check_case(items: &[Item], reads: Option<&Schedule>) -> Outcome {
+    let enc = encode_items(items);
+    let got = guard(|| decode_all(&enc.bytes))?;
+    compare(items, &enc, &got, "decode", "")?;
     let families: std::collections::BTreeSet<&str> = items.iter().map(|i| i.family()).collect();
     let adjacent_diff = items.windows(2).any(|w| w[0].family() != w[1].family());
     let boundary = items.iter().any(|i| i.boundary_param());
     let mut pass = Pass::new(adjacent_diff || boundary);
     for f in families {
         pass = pass.label(f);
+    }
+    let table = &*TABLE;
+    let esc_key_first = items.windows(2).any(|w| w[0].is_ambiguous_legacy(table));
+    pass = pass.label_if(esc_key_first, "esc-prefixed-key-before-sequence");
+    if let Some(sched) = reads {
+        let bytes = &enc.bytes;
+        let len = bytes.len();
+        let cuts = sched.resolve(bytes);
+        check_reads(items, &enc, &cuts, sched.drain)?;
+        let (mut empty, mut fault, mut inside, mut prefix, mut pair, mut empty_at_prefix, mut fault_inside) =
+            (false, false, false, false, false, false, false);
+        for (pos, gaps) in &cuts {
+            let p = *pos;
+            let has_empty = gaps.contains(&Gap::Empty) || (sched.drain && p > 0);
+            let has_fault = gaps.iter().any(|g| *g != Gap::Empty);
+            let is_inside = p > 0 && p < len && enc.ends.binary_search(&p).is_err();
+            let after_prefix = is_inside
+                && (bytes[p - 1] == ESC || (p >= 2 && bytes[p - 2] == ESC && b"[OP]_".contains(&bytes[p - 1])));
+            empty |= has_empty;
+            fault |= has_fault;
+            inside |= is_inside;
+            prefix |= after_prefix;
+            pair |= p >= 2 && p < len && bytes[p - 1] == ESC && bytes[p - 2] == ESC;
+            empty_at_prefix |= after_prefix && has_empty;
+            fault_inside |= is_inside && has_fault;
+        }
+        pass = pass
+            .label("reads")
+            .label_if(sched.drain, "reads/nothing-after-every-read")
+            .label_if(empty, "reads/read-returns-nothing")
+            .label_if(fault, "reads/failed-read-retried")
+            .label_if(inside, "reads/cut-inside-item")
+            .label_if(prefix, "reads/cut-after-ESC-or-introducer")
+            .label_if(pair, "reads/cut-after-ESC-ESC")
+            .label_if(empty_at_prefix, "reads/nothing-read-while-prefix-pending")
+            .label_if(fault_inside, "reads/failed-read-inside-item");
     }
     Ok(pass.label_if(boundary, "boundary-parameter").label_if(items.len() >= 4, "seq>=4"))
 }
@@ -126,13 +425,58 @@ impl Property for C04 {
 
     fn strategy(&self, _tier: Tier) -> BoxedStrategy<Case> {
         let n = TABLE.len();
-        proptest::collection::vec(ttyout::item_strategy(n), 1..=8)
-            .prop_map(|items| Case { items: ttyout::normalise(items, &TABLE) })
+        // the bare-ESC-prefixed keys (ESC itself, and the introducers read as alt+key): rare in
+        // the table, but the ones whose candidate has to survive until the next sequence starts
+        let ambiguous: Vec<usize> = (0..n).filter(|i| TABLE[*i].ambiguous).collect();
+        let esc_key = TABLE.iter().position(|k| k.bytes == [ESC]).expect("table has ESC");
+        let extra_keys = prop_oneof![
+            17 => Just(Vec::new()),
+            3 => proptest::collection::vec(
+                (any::<u8>(), prop_oneof![3 => Just(esc_key), 2 => proptest::sample::select(ambiguous)]),
+                1..=2
+            ),
+        ];
+        let gap = || prop_oneof![3 => Just(Gap::Empty), 2 => Just(Gap::WouldBlock), 2 => Just(Gap::Interrupted)];
+        let gaps = prop_oneof![
+            4 => Just(Vec::new()),
+            5 => proptest::collection::vec(gap(), 1..=1),
+            2 => proptest::collection::vec(gap(), 2..=3),
+        ];
+        let snap = prop_oneof![
+            3 => Just(Snap::Free),
+            3 => Just(Snap::AfterEsc),
+            3 => Just(Snap::AfterIntroducer),
+            2 => Just(Snap::AfterEscEsc),
+        ];
+        let cut = (any::<u16>(), snap, gaps).prop_map(|(at, snap, gap)| Cut { at, snap, gap });
+        let reads = prop_oneof![
+            5 => Just(None),
+            5 => (proptest::bool::weighted(0.3), proptest::collection::vec(cut, 1..=5))
+                .prop_map(|(drain, cuts)| Some(Schedule { drain, cuts })),
+        ];
+        (proptest::collection::vec(ttyout::item_strategy(n), 1..=8), extra_keys, reads)
+            .prop_map(|(mut items, extra_keys, reads)| {
+                // such a key goes in front of an item whose encoding starts with ESC
+                for (at, key) in extra_keys {
+                    let mut enc = Vec::new();
+                    let slots: Vec<usize> = (0..items.len())
+                        .filter(|i| {
+                            enc.clear();
+                            items[*i].encode(&TABLE, &mut enc);
+                            enc.first() == Some(&ESC)
+                        })
+                        .collect();
+                    if !slots.is_empty() {
+                        items.insert(slots[at as usize % slots.len()], Item::Legacy(key));
+                    }
+                }
+                Case { items: ttyout::normalise(items, &TABLE), reads }
+            })
             .boxed()
     }
 
     fn check(&self, case: &Case) -> Outcome {
-        check_items(&case.items)
+        check_case(&case.items, case.reads.as_ref())
     }
 
     fn cases(&self, tier: Tier) -> u32 {
@@ -140,7 +484,7 @@ impl Property for C04 {
     }
 
     fn rule(&self) -> String {
-        "sequences of 1..=8 items: legacy/xterm/fixterms keys from the pinned naming table (every entry x modifier), printable text of any scalar values, SGR-1006 mouse (all 256 button codes, coords 1..65535 boundary-biased), CPR, DECRPM (every mode x status), DA1, SGR and DECRPSS parameter lists (all three truecolour spellings, 256-colour, named, attributes on/off, several colours in one sequence), OSC 4/10/11 colour replies (1-4 hex digits, #rrggbb, BEL/ST), XTGETTCAP success/failure, kitty keyboard (functional keys, F13-F35, any non-PUA scalar, alternates, mods 0..256, text field) and level reports, kitty graphics responses, XTWINOPS size pair, bracketed paste (up to 12 characters, rarely 1000-5000), and the CSI introducer followed by 0-6 parameter bytes and a non-ASCII character (no control sequence can contain one: the introducer is the alt+[ key and the bytes behind it are ordinary keys, in order); concatenated and decoded in one buffer; exhaustive sweep over every table key, every mouse code, every palette index. non-trivial = two adjacent items of different families or a boundary-valued parameter".into()
+        "sequences of 1..=8 items: legacy/xterm/fixterms keys from the pinned naming table (every entry x modifier), printable text of any scalar values, SGR-1006 mouse (all 256 button codes, coords 1..65535 boundary-biased), CPR, DECRPM (every mode x status), DA1, SGR and DECRPSS parameter lists (all three truecolour spellings, 256-colour, named, attributes on/off, several colours in one sequence), OSC 4/10/11 colour replies (1-4 hex digits, #rrggbb, BEL/ST), XTGETTCAP success/failure, kitty keyboard (functional keys, F13-F35, any non-PUA scalar, alternates, mods 0..256, text field) and level reports, kitty graphics responses, XTWINOPS size pair, bracketed paste (up to 12 characters, rarely 1000-5000), and the CSI introducer followed by 0-6 parameter bytes and a non-ASCII character (no control sequence can contain one: the introducer is the alt+[ key and the bytes behind it are ordinary keys, in order); in 15% of the cases one or two bare-ESC-prefixed keys (ESC itself 3:2 over the introducers read as alt+key) are put in front of items that start with ESC; concatenated and decoded in one buffer; in 50% of the cases the same bytes are then decoded a second time by a fresh decoder under a generated read schedule: 1-5 cuts (position free, or moved to the next boundary right after an ESC, right after the byte that follows an ESC -- `ESC [`, `ESC O`, `ESC P`, `ESC ]`, `ESC _`, `ESC ESC` --, or right after `ESC ESC`), at every cut 0-3 reads that deliver nothing: a read that returns an empty slice, a read that fails with WouldBlock, a read that fails with Interrupted (after a failure the same decode call is made again on the same decoder and reader); in 30% of the schedules every delivered chunk is in addition followed by a read that returns nothing (the way Terminal::poll feeds the decoder: one Cursor per read(2), drained until None); one scripted BufRead, Decoder::decode called until it returns None with everything delivered and consumed; the event list must again be exactly the one the items denote, and a failure is attributed (by re-running the schedule without the failed reads, then without the empty reads) to reads/cut-changes-events, reads/empty-read-changes-events or reads/retried-read-error-changes-events; exhaustive sweep over every table key, every mouse code, every palette index, and -- for every table key followed by a report, and for one sequence of every other family -- over every cut position inside the input with each of the three kinds of read that delivers nothing at the cut. non-trivial = two adjacent items of different families or a boundary-valued parameter".into()
     }
 
     fn assumptions(&self) -> Vec<String> {
@@ -148,6 +492,8 @@ impl Property for C04 {
             "key/button names and the RGB values of the 16 named colours are the library's fixed naming table, pinned as data in ttyout.rs/refsgr.rs".into(),
             "12/16-bit OSC colour components may be reduced to 8 bits by truncation or by rounding (any value in between is accepted); 4/8-bit components are exact".into(),
             "bare ESC and the CSI/SS3/DCS/OSC/APC introducers read as alt+key are only generated before another ESC-introduced item (at the end of input they stay pending) or -- CSI only -- before parameter bytes ended by a non-ASCII character, which by ECMA-48 no control sequence contains; CSI 1;nR (n in 2..=8) is expected as modified F3".into(),
+            "the events denoted by a byte stream do not depend on how the bytes are delivered to Decoder::decode (the statement speaks of the bytes a terminal sends; C03 states the independence from read boundaries, empty reads included): the read schedule is a second delivery of the same bytes with the same expected events. io::BufRead contract relied on: fill_buf returning an empty slice delivers nothing; fill_buf failing with ErrorKind::WouldBlock or ErrorKind::Interrupted has consumed nothing and the operation may be retried, so a caller that repeats the decode call on the same decoder and reader must lose nothing. What decode returns for the call in which the reader failed (the error, or None) is not checked; an error without a reader failure is reads/io-error".into(),
+            "a read that returns nothing is not end of input for a pending bare-ESC-prefixed key: no event is expected from it; at the very end of the input nothing is pending (such keys are not generated last), so trailing empty or failed reads add no expectation either".into(),
             "SGR codes outside what a face-modification record can express (2, 7, 27, 39, 49, 53, 59 ...) are not generated".into(),
         ]
     }
@@ -159,12 +505,30 @@ impl Property for C04 {
             sw.nontrivial += 1;
             match guard(|| check_items(&items)) {
                 Ok(_) => Ok(()),
-                Err(f) => Err((Case { items }, f)),
+                Err(f) => Err((Case { items, reads: None }, f)),
             }
+        };
+        // two reads with the cut at every position strictly inside the input, and at the cut a
+        // read that returns nothing / fails with WouldBlock / fails with Interrupted
+        let run_cuts = |items: Vec<Item>, sw: &mut Sweep| -> Result<(), (Case, Fail)> {
+            let len = encode_items(&items).bytes.len();
+            for c in 1..len {
+                for gap in [Gap::Empty, Gap::WouldBlock, Gap::Interrupted] {
+                    let reads = Schedule { drain: false, cuts: vec![Cut { at: frac_for(c, len), snap: Snap::Free, gap: vec![gap] }] };
+                    sw.evaluations += 1;
+                    sw.nontrivial += 1;
+                    *sw.labels.entry("sweep-reads".into()).or_default() += 1;
+                    if let Err(f) = guard(|| check_case(&items, Some(&reads))) {
+                        return Err((Case { items, reads: Some(reads) }, f));
+                    }
+                }
+            }
+            Ok(())
         };
         // every key of the table alone, and followed by a self-delimiting report
         for i in 0..table.len() {
             run(vec![Item::Legacy(i), Item::Cpr { row: 3, col: 9 }], sw)?;
+            run_cuts(vec![Item::Legacy(i), Item::Cpr { row: 3, col: 9 }], sw)?;
             if !table[i].ambiguous {
                 run(vec![Item::Legacy(i)], sw)?;
                 run(vec![Item::Legacy(i), Item::Text("x".into())], sw)?;
@@ -190,8 +554,30 @@ impl Property for C04 {
                 run(vec![Item::DecRpm { mode, status }], sw)?;
             }
         }
+        // one sequence of every other family, cut everywhere
+        let esc_key = table.iter().position(|k| k.bytes == [ESC]).expect("table has ESC");
+        run_cuts(
+            vec![
+                Item::Mouse { code: 0, x: 94, y: 14, press: true },
+                Item::Legacy(esc_key),
+                Item::Osc { name: ttyout::ColorName::Bg, fmt: ttyout::ColorFmt::Rgb { digits: 4, comps: [0xcccc, 0x2424, 0x1d1d], upper: false }, term: ttyout::Term::St },
+                Item::Paste("some text".into()),
+                Item::Text("\u{e9}x".into()),
+                Item::Legacy(esc_key),
+                Item::TermcapOk(vec![("bold".into(), "\u{1b}[1m".into())]),
+                Item::DecRpm { mode: 2026, status: 1 },
+                Item::Da1(vec![62, 4]),
+                Item::Sgr(vec![SgrParam::Bold]),
+                Item::KittyKey { code: 97, alts: vec![], mods: Some(5), text: None },
+                Item::KittyLevel(1),
+                Item::KittyImage { id: 7, placement: None, error: None, extra_keys: false },
+                Item::SizePair { cells: (80, 24), pixels: (800, 480) },
+            ],
+            sw,
+        )?;
         sw.samples.push(serde_json::json!({"items": [{"Legacy": 0}, {"Cpr": {"row": 3, "col": 9}}]}));
-        *sw.labels.entry("sweep-table".into()).or_default() += sw.evaluations;
+        let reads_sweep = sw.labels.get("sweep-reads").copied().unwrap_or(0);
+        *sw.labels.entry("sweep-table".into()).or_default() += sw.evaluations - reads_sweep;
         Ok(())
     }
 }
